@@ -88,13 +88,25 @@ func c16Scripts(tier string) []uciParams {
 			out = append(out, uciParams{Engine: "plain", Script: script, Final: "quit", Oracle: "c16", Horizon: 900})
 		}
 	}
+	// roots WITHOUT a legal move (checkmated, stalemated): the search ends at once with an empty
+	// variation and the answer is the null move - a path of its own through the driver's bookkeeping
+	for _, root := range []string{kMated, kStale} {
+		for _, g := range []string{"go depth 1", "go infinite"} {
+			for _, w := range [][]string{{"stop"}, {"stop", "stop"}, {"isready"}, {"position fen " + kP2}, {"position fen " + kP2, "go depth 1"}, {"ucinewgame"}, {"quit"}, {"go depth 1"}} {
+				script := []string{"position fen " + root, g, "!" + w[0]}
+				script = append(script, w[1:]...)
+				script = append(script, "isready", "await-ready")
+				out = append(out, uciParams{Engine: "plain", Script: script, Final: "quit", Oracle: "c16", Horizon: 700})
+			}
+		}
+	}
 	return out
 }
 
 func init() {
 	Defs["C16"] = &Def{
 		ID:   "C16",
-		Rule: "real uci.Driver + engine + iterative-deepening search on a K v K root (3 legal moves) driven by a GUI thread; scripts `position P1; go X; <w>; isready; quit|EOF` (and `go X; <w>; isready; quit` with no position command at all: the engine starts on the initial position; and `position P1; go infinite; <w>; isready; quit` with the driver's buffered channels scaled down to two slots and a GUI that stops reading the output for 150 steps or until nothing else can run) for interrupting words w of length <= 2 over {isready, stop, position P2 (other side to move, so a bestmove identifies its search), go, ucinewgame, quit, unknown, malformed go, malformed position, empty line}; the first interrupting command is released (a) as a lazy thread: at ANY scheduling point of the run for one deviation, timers likewise, and (b) at scheduler step k for a grid of k over the whole uninterrupted run (injection instant enumerated, leaving the deviations for preemptions), timers likewise, and for superseding commands each engine goroutine (search, quit-cancel, forwarder, ...) in turn held back for 50/200 steps after the release (slow-thread dimension); every schedule within the deviation bound (delay bounding: every departure from the deterministic scheduler costs 1). Oracle on the event log of each complete execution: no panic in any thread; loop never parked inside a handler, GUI never blocked on a live driver; every received isready answered; no bestmove before a go, two for one go, or illegal for the position the go was given for (= answer of a superseded search); after quit/EOF output channel and driver closed. Horizon-cut executions are inconclusive, never violations. distinct_nontrivial = distinct event-log classes among executions where two threads touched a common object",
+		Rule: "real uci.Driver + engine + iterative-deepening search on a K v K root (3 legal moves) driven by a GUI thread; scripts `position P1; go X; <w>; isready; quit|EOF` (and `go X; <w>; isready; quit` with no position command at all: the engine starts on the initial position; and the same from a checkmated and a stalemated root, where the search ends at once with an empty variation and the answer is the null move; and `position P1; go infinite; <w>; isready; quit` with the driver's buffered channels scaled down to two slots and a GUI that stops reading the output for 150 steps or until nothing else can run) for interrupting words w of length <= 2 over {isready, stop, position P2 (other side to move, so a bestmove identifies its search), go, ucinewgame, quit, unknown, malformed go, malformed position, empty line}; the first interrupting command is released (a) as a lazy thread: at ANY scheduling point of the run for one deviation, timers likewise, and (b) at scheduler step k for a grid of k over the whole uninterrupted run (injection instant enumerated, leaving the deviations for preemptions), timers likewise, and for superseding commands each engine goroutine (search, quit-cancel, forwarder, ...) in turn held back for 50/200 steps after the release (slow-thread dimension); every schedule within the deviation bound (delay bounding: every departure from the deterministic scheduler costs 1). Oracle on the event log of each complete execution: no panic in any thread; loop never parked inside a handler, GUI never blocked on a live driver; every received isready answered; no bestmove before a go, two for one go, or illegal for the position the go was given for (= answer of a superseded search); after quit/EOF output channel and driver closed. Horizon-cut executions are inconclusive, never violations. distinct_nontrivial = distinct event-log classes among executions where two threads touched a common object",
 		Gen: func(tier string) []explore.Scenario {
 			var out []explore.Scenario
 			for _, p := range c16Scripts(tier) {
